@@ -47,6 +47,9 @@ fn outcome_name(o: &ScaleOutcome) -> &'static str {
         ScaleOutcome::Fixed => "fixed",
         ScaleOutcome::NoQuantity => "noQuantity",
         ScaleOutcome::Error(_) => "error",
+        // a variant added to the library later: the class of an error is only compared as drift
+        #[allow(unreachable_patterns)]
+        _ => "other",
     }
 }
 fn rel_close(a: f64, b: f64) -> bool {
